@@ -40,6 +40,10 @@ def gen_comp_spec(rng):
             setup.add(i)
             sp["fns"][nd["fn"]]["setup"] = True
     # tags: unique and shared
+    # constants that are OBJECTS (identity matters, cannot be copied): compose takes constants from the original
+    for nd in sp["nodes"]:
+        if rng.random() < 0.12:
+            nd["args"].append(["g", rng.choice(["OPQ_A", "OPQ_B"])])
     idp = S.node_ids(sp)
     for i, nd in enumerate(sp["nodes"]):
         r = rng.random()
